@@ -1,4 +1,4 @@
-CONSTANTS MaxConn = 3  Reqs = {1, 2, 3}  Fix = TRUE  RedialFirst = TRUE
+CONSTANTS MaxConn = 3  Reqs = {1, 2, 3}  Fix = TRUE  RedialFirst = TRUE  MaxRestart = 0  MaxInFlight = 3  Mut = "none"
 SPECIFICATION Spec
-INVARIANTS TypeOK NoWriteOnKnownDead HealthyNotMarkedClosed NoStranding
+INVARIANTS TypeOK NoWriteOnKnownDead HealthyNotMarkedClosed NoStranding NoFailAfterDead DeadNotTreatedAsLive
 CHECK_DEADLOCK FALSE
